@@ -176,6 +176,10 @@ def run_property(prop, tier, seed, jobs, replay=None):
             if f.startswith('replay-'):
                 os.remove(os.path.join(outdir, f))
     real.sort(key=lambda v: len(json.dumps(v.get('case'))))  # smallest witness first
+    groups = {}                                                 # ... round-robin over (check, key) mechanisms
+    for v in real:
+        groups.setdefault((v.get('check'), v.get('key')), []).append(v)
+    real = [g[i] for i in range(max([len(g) for g in groups.values()] or [0])) for g in groups.values() if i < len(g)]
     for n, v in enumerate(real[:20]):
         if replay:
             path = replay
